@@ -121,9 +121,10 @@ def main():
     if a.keep_as and meta["confirmed"]:
         d = Path("/verif/seeded") / a.keep_as
         d.mkdir(parents=True, exist_ok=True)
-        shutil.copy(patch, d / "patch.diff")
+        if patch.resolve() != (d / "patch.diff").resolve():
+            shutil.copy(patch, d / "patch.diff")
         for f in ("demo.sd", "demo.txt"):
-            if (mut / f).exists():
+            if (mut / f).exists() and (mut / f).resolve() != (d / f).resolve():
                 shutil.copy(mut / f, d / f)
         (d / "meta.json").write_text(json.dumps(meta, indent=1))
     return 0
